@@ -96,7 +96,10 @@ Proof. exact paper_levels. Qed.
 Print Assumptions C04_paper_copies_add_no_lookahead.
 
 (* Backtest.run's date loop: the engine (updates, bankruptcy, paper copies of every level) adds no look-ahead of its own —
-   whole-run no-look-ahead with respect to the securities' data follows from the same statement about Strategy.run *)
+   whole-run no-look-ahead with respect to the securities' data follows from the same statement about Strategy.run.
+   Scope: swapN replaces the data columns held by the securities; the strategies' universes (read by the algos and copied
+   into securities that are created lazily) are left alone, so RUNS can only hold for trees whose securities exist up
+   front; swapping the universes as well is the missing piece, together with RUNS itself for the stock algos. *)
 Theorem C04_backtest_loop_no_lookahead_given_the_algos_partial :
   forall N (F : nat -> cols N) (e : env N),
   RUNS N (astate N) F (fun ps tr => strat_run ps depth_fuel e [] tr) ->
